@@ -17,7 +17,8 @@ HARNESS_BIN = 'c06'
 RUN_MODULE = 'Run.C06'
 THEOREMS = ['C06_get_complete', 'C06_no_errors', 'C06_crash_safe', 'C06_crash_then_get',
             'C06_uncommitted_invisible', 'C06_lookup_visible', 'C06_hex_keys_not_temp',
-            'C06_crash_safe_tree', 'C06_crash_leaves_temps', 'C06_tree_refines_main']
+            'C06_crash_safe_tree', 'C06_crash_leaves_temps', 'C06_tree_refines_main',
+            'C06_indexed_is_served', 'C06_split_lookup_refuted']
 ASSUMPTIONS = [
     'atomic steps are the lock sections of DiskCache::put/get (Reserve, each chunk of the unlocked write, Commit or '
     'Abandon; Open, Read); rename(2) switches a directory entry atomically and an open descriptor keeps reading the '
@@ -44,12 +45,17 @@ ASSUMPTIONS = [
     'the one injected rename failure is a shard directory <root>/x/y on another file system (a tiny tmpfs mounted in a '
     'private mount namespace; cases are skipped, and counted as such, where mounting is impossible): commit must fail '
     'cleanly (error, temp dropped, nothing at the final path, reservation released)',
+    'lock scope: the model takes the index look-up + utimes + open of a lookup, and the index removal + unlink of an '
+    'eviction, as single atomic steps (C06_no_errors / C06_indexed_is_served rest on it, C06_split_lookup_refuted shows '
+    'it is needed); the harness probes it on the real code: a call is parked at its utimensat / unlink of an entry file '
+    'and the next steps of the schedule are attempted inside that window (250 ms; on the unchanged tree they wait for '
+    'the lock, so the outcome is that of the plain schedule — a slow machine can only make a probe miss, never fail)',
     'no other process touches the cache directory',
 ]
 TRUSTED = ['hook H2: verif_hooks::sync at put.before_reserve / put.reserved / put.written / put.committed / '
            'get.before_lock / get.opened in src/cache/disk.rs (no-ops unless a controller is installed)',
            'hook DiskCache::verif_indexes (read-only view of what the two stores index)',
-           'the harness binary defines `write` (the plain system call, plus a park of a nested-store put before '
+           'the harness binary defines `write`, `utimensat` and `unlink` (the plain system calls, plus a park of a nested-store put before '
            'its first write to its temp file); file mtimes of touched entry files are rewritten to a logical clock '
            'after every step (as in C07)']
 
@@ -624,5 +630,7 @@ def legs(tier):
                      'both thread orders, several chunkings and both orders of opening the stores, and of 5 three-call '
                      'shapes; plus PRNG call sets of 2-4 calls on both stores over 5 keys x 8 payloads x 6 capacities '
                      'with random initial trees (entries of both stores, temp-named files in 6 places), a random '
-                     'interleaving cut at a random point (4000 quick / 60000 thorough); non-trivial = at least one '
+                     'interleaving cut at a random point (4000 quick / 60000 thorough); shard-on-another-file-system '
+                     'shapes (rename fails); lock-scope probes (a lookup parked at utimensat, a store parked at the unlink '
+                     'of an evicted entry, the following steps attempted inside); non-trivial = at least one '
                      'step executed; distinct by full case text')]
